@@ -64,6 +64,7 @@ def run_path(uni, it, c, fn, info, key, rep):
     fr = Frame(c.name, cname, c, env={})
     fr.fn_node = fn
     fr.fn_key = key
+    fr.relpath = c.func.split(":")[0]
     # parameters
     names = [a.arg for a in fn.args.args] + [a.arg for a in
                                              fn.args.kwonlyargs]
